@@ -9,7 +9,8 @@ package db
 //
 //	cd /verif && VERIF_NATIVE=1 [VERIF_TIER=thorough] [VERIF_REPO=/tmp/wt-C21c] ./bin/symgo nativetest C21c TestVerifC21cSweep
 //
-// VERIF_EXPECT_CLEAN=1 makes recorded findings failures as well (for a repaired tree).
+// VERIF_EXPECT_CLEAN=1 makes recorded findings failures as well (for a repaired tree);
+// VERIF_SWEEP_ENTRY=<entry> restricts the sweep to one entry.
 
 import (
 	"context"
@@ -96,8 +97,13 @@ func TestVerifC21cSweep(t *testing.T) {
 	if os.Getenv("VERIF_NATIVE") == "" {
 		t.Skip()
 	}
-	c21cSweep(t, "VerifC21cDump", VerifC21cDump)
-	c21cSweep(t, "VerifC21cStmt", VerifC21cStmt)
+	only := os.Getenv("VERIF_SWEEP_ENTRY")
+	if only == "" || only == "VerifC21cDump" {
+		c21cSweep(t, "VerifC21cDump", VerifC21cDump)
+	}
+	if only == "" || only == "VerifC21cStmt" {
+		c21cSweep(t, "VerifC21cStmt", VerifC21cStmt)
+	}
 }
 
 // TestVerifC21cIsolationModel (spec "native_checks", run with every check): the two rules the
